@@ -9,8 +9,8 @@ from vf.engine import Violation, InvalidCase
 from vf.fixtures import check, expect_raises, sized_lists, wone_of
 
 PROPERTY = "C14"
-BUDGET = {"quick": 3000, "thorough": 8000}
-RULE = ("0-5 parameters with arbitrary str names (empty, unicode); values: scalar (int, float, None, bool, opaque object), str (also "
+BUDGET = {"quick": 6000, "thorough": 18000}
+RULE = ("0-5 parameters with arbitrary str names (empty, unicode); values: scalar (int, float, None, bool, opaque object, Fraction, complex, numpy scalar, zero-dimensional numpy array), str (also "
         "empty), list / tuple / range / 1-D numpy array of length 0-4 with repeated values; declared through the constructor "
         "dict and/or a history (0-10 ops) of add_parameter / remove_parameter incl. invalid ops (non-str name -> AttributeError, "
         "duplicate -> KeyError, unknown remove -> KeyError; constructor with a non-str key -> AttributeError). After EVERY op "
@@ -29,8 +29,20 @@ def make_value(spec):
         return spec["v"]
     if k == "obj":
         return _OBJ[int(spec["v"]) % 3]
+    if k == "np0d":                     # a zero-dimensional numpy array: a scalar in array clothing (has no length, cannot be iterated)
+        return np.asarray(spec["v"])
+    if k == "npscalar":
+        return (np.float64 if isinstance(spec["v"], float) else np.int64)(spec["v"])
+    if k == "frac":
+        from fractions import Fraction
+        return Fraction(int(spec["v"]), 3)
+    if k == "complex":
+        return complex(spec["v"], 1)
     if k == "str":
         return str(spec["v"])
+    if k == "nested":                   # a collection whose VALUES are themselves containers (layouts, records, vectors)
+        outer = [_elem(e) for e in spec["v"]]
+        return tuple(outer) if spec.get("as") == "tuple" else outer
     if k == "list":
         return list(spec["v"])
     if k == "tuple":
@@ -43,13 +55,28 @@ def make_value(spec):
     raise InvalidCase(k)
 
 
+def _elem(e):
+    kind, payload = e
+    if kind == "list":
+        return list(payload)
+    if kind == "dict":
+        return {"k": payload, "n": len(payload)}
+    if kind == "set":
+        return set(payload)
+    if kind == "array":
+        return np.array(payload, dtype=np.int64)
+    if kind == "tuple":
+        return tuple(payload)
+    return payload
+
+
 def elements(val):
     """the values a declared parameter stands for (independent of ECAgent: by index, never by iterating like the code does)"""
     if isinstance(val, str):
         return [val]
     if isinstance(val, (list, tuple, range)):
         return [val[i] for i in range(len(val))]
-    if isinstance(val, np.ndarray):
+    if isinstance(val, np.ndarray) and val.ndim >= 1:
         return [val[i] for i in range(val.shape[0])]
     return [val]
 
@@ -62,6 +89,16 @@ def product(decl):
 
 
 def same_value(a, b):
+    if isinstance(b, np.ndarray) and b.ndim >= 1:
+        return isinstance(a, np.ndarray) and a.shape == b.shape and bool(np.array_equal(a, b))
+    if isinstance(a, np.ndarray) and not (isinstance(b, np.ndarray) and b.ndim == 0):
+        return False
+    return _same_value(a, b)
+
+
+def _same_value(a, b):
+    if isinstance(b, np.ndarray) and b.ndim == 0:       # the single value a 0-d array stands for: itself or its scalar
+        return np.ndim(a) == 0 and bool(a == b)
     if type(a) is not type(b):
         return False
     if a is b:
@@ -89,6 +126,9 @@ def run_case(case):
     nontrivial = False
     ctor = case.get("ctor")
     twin = twin_src = None
+    # two further lists created without arguments, one before and one after the list under test, each with one parameter of
+    # its own: lists are independent of each other (whichever way they were constructed)
+    bystanders = [ParameterList()]
     if ctor is None:
         pl = ParameterList()
     else:
@@ -110,6 +150,14 @@ def run_case(case):
         d_snapshot = list(d.items())
     for name, val in decl:
         held[name] = (val, snapshot_value(val))
+    bystanders.append(ParameterList())
+    bystanders[0].add_parameter("a", [7, 8])
+    bystanders[1].add_parameter("\x00other", 5)
+
+    def verify_bystanders(where):
+        got = [b.build() for b in bystanders]
+        if got != [[{"a": 7}, {"a": 8}], [{"\x00other": 5}]]:
+            raise Violation("lists-share-state", f"{where}: two other lists declared as a=[7, 8] and '\\x00other'=5 now build {got}")
 
     def verify(where):
         nonlocal nontrivial
@@ -154,6 +202,7 @@ def run_case(case):
             labels.add("no-parameters")
 
     verify("after construction")
+    verify_bystanders("after construction")
 
     def verify_twin(where):
         if twin is None:
@@ -199,6 +248,7 @@ def run_case(case):
             raise InvalidCase(op)
         verify(where)
         verify_twin(where)
+        verify_bystanders(where)
     if twin is not None:                       # finally the caller edits its own dict: the list must not notice
         twin_src["\x00late-key"] = [1, 2, 3]
         verify("after the caller added a key to the dict it had passed to the constructor")
@@ -213,10 +263,15 @@ def strategy(tier):
     val = wone_of(
         st.builds(lambda v: {"k": "scalar", "v": v}, wone_of(st.integers(-5, 5), st.sampled_from([0.5, 1e300]), st.none(), st.booleans())),
         st.builds(lambda v: {"k": "obj", "v": v}, st.integers(0, 2)),
+        st.builds(lambda k, v: {"k": k, "v": v}, st.sampled_from(["np0d", "npscalar"]), wone_of(st.integers(-5, 5), st.sampled_from([0.5, -2.0]))),
+        st.builds(lambda k, v: {"k": k, "v": v}, st.sampled_from(["frac", "complex"]), st.integers(-5, 5)),
         st.builds(lambda v: {"k": "str", "v": v}, st.sampled_from(["", "a", "hello", "xy"])),
         st.builds(lambda v: {"k": "list", "v": v}, st.lists(elem, max_size=4)),
         st.builds(lambda v: {"k": "list", "v": v}, st.lists(st.integers(0, 2), min_size=2, max_size=4)),
         st.builds(lambda v: {"k": "tuple", "v": v}, st.lists(elem, max_size=4)),
+        st.builds(lambda v, a: {"k": "nested", "v": v, "as": a},
+                  st.lists(st.tuples(st.sampled_from(["list", "dict", "set", "array", "tuple", "plain"]), st.lists(st.integers(0, 3), max_size=3)).map(list), max_size=3),
+                  st.sampled_from(["list", "tuple"])),
         st.builds(lambda v: {"k": "range", "v": v}, st.integers(0, 4)),
         st.builds(lambda v: {"k": "array", "v": v}, st.lists(num, max_size=4)),
     )
